@@ -725,7 +725,9 @@ def build_rtl_layer(calibration_outputs, model_config, submodel_index,
     passthrough_name = '{}_{}'.format(RTL_INPUT_NAME, feature_config.name)
     calibration_output = tf.identity(
         calibration_outputs[feature_config.name], name=passthrough_name)
-    if feature_config.monotonicity in [1, -1, 'increasing', 'decreasing']:
+    # Same notion of "monotonic feature" as for explicit lattices: this includes
+    # categorical features constrained by a list of monotonicity pairs.
+    if _monotonicities_from_feature_configs([feature_config])[0]:
       rtl_inputs['increasing'].append(calibration_output)
     else:
       rtl_inputs['unconstrained'].append(calibration_output)
